@@ -8,12 +8,6 @@ package responder
 
 // C11: a DNS query parsed from arbitrary bytes (any number of questions and additional records, any flags) is
 // answered without an index out of range; a payload is handed on only for a query with exactly one question.
-//@ func (name dns.Name) TrimSuffix(suffix dns.Name) (dns.Name, bool)
-//@   assigns nothing
-//@ func (m *dns.Message) Opcode() uint16
-//@   assigns nothing
-//@ func (m *dns.Message) Rcode() uint16
-//@   assigns nothing
 
 //@ func (r *Responder) responseFor(query *dns.Message, domain dns.Name) (*dns.Message, []byte)
 //@   requires r != nil && query != nil
